@@ -688,6 +688,7 @@ func checkC17(c *Ctx) {
 	}
 
 	c.ruleGoCapturesLoopVar("C17-R6")
+	c.ruleSessionFromPrincipal("C17-R7")
 
 	// R5: a prefixed name is a fresh slice
 	ru5 := c.R.Rule("C17-R5", "the functions of wasp/sessions that return a topic build it in fresh storage: no result is an append onto a slice kept in a struct field or package variable (two results would share that slice's spare capacity, and the second call would overwrite the name the first one returned — a message is then delivered or stored under another topic)", "E3 provenance of returned slices", 2)
@@ -721,5 +722,105 @@ func checkC17(c *Ctx) {
 			}
 		}
 		ru5.Check(bad == "", "storage of the topic returned by "+c.fname(f), c.whereF(f), "fresh storage", bad)
+		// and a helper that maps names between the client's view and the broker's never hands its argument back as it is:
+		// a name returned unchanged is neither qualified nor stripped (a special case such as "no mount point, no prefix"
+		// produces names without any '/' level in front, which the replicated state cannot attribute to a tenant)
+		bad = ""
+		for _, rv := range returnValues(f) {
+			if prm, ok := core.Strip(rv).(*ssa.Parameter); ok && prm.Parent() == f {
+				bad = "a path returns the argument " + prm.Name() + " unchanged: that name is neither prefixed with nor stripped of the mount point"
+			}
+		}
+		ru4.Check(bad == "", "every result of "+c.fname(f)+" is a transformed name", c.whereF(f), "no path returns the argument as it is", bad)
+	}
+}
+
+// ruleSessionFromPrincipal implements C17-R7 (= C16-R11): the session is created under the identifier and in the mount
+// point that authentication returned. The constructor takes several strings in a row (id, mount point, listener name):
+// which parameter ends up as the session's mount point / id is read off the constructor and the accessors, and at every
+// call site that argument must come from the corresponding field of the principal.
+func (c *Ctx) ruleSessionFromPrincipal(id string) {
+	ru := c.R.Rule(id, "the session is created with what authentication returned: the constructor argument that becomes Session.MountPoint() derives from Principal.MountPoint, the one that becomes Session.ID() from Principal.ID, at every call site (two same-typed neighbours swapped — the listener's name for the mount point — put every client of a listener into one tenant named after the listener, and publishers and subscribers of one tenant on different listeners no longer meet)", "E3 provenance of constructor arguments, parameter roles read off the accessors", 2)
+	ns := c.P.Func("wasp/sessions", "NewSession")
+	if !ru.Anchor(ns != nil, "sessions.NewSession") {
+		return
+	}
+	sessT := c.P.Named("wasp/sessions", "Session")
+	if !ru.Anchor(sessT != nil, "sessions.Session") {
+		return
+	}
+	// field returned by an accessor of *Session
+	accessorField := func(name string) int {
+		mo := c.P.MethodObj(c.P.Rel("wasp/sessions"), "Session", name)
+		if mo == nil {
+			mo = c.P.MethodObj("wasp/sessions", "Session", name)
+		}
+		if mo == nil {
+			return -1
+		}
+		m := c.P.SSA.FuncValue(mo)
+		if m == nil {
+			return -1
+		}
+		for _, rv := range returnValues(m) {
+			if ld, ok := core.Strip(rv).(*ssa.UnOp); ok && ld.Op == token.MUL {
+				if fa, ok := ld.X.(*ssa.FieldAddr); ok && isNamed(derefT(fa.X.Type()), "wasp/sessions", "Session") {
+					return fa.Field
+				}
+			}
+		}
+		return -1
+	}
+	// constructor parameter stored into that field
+	paramOf := func(field int) int {
+		for _, g := range c.funcsDeepStop(ns, 1, func(x *ssa.Function) bool { return x.Package() != ns.Package() }) {
+			for _, b := range g.Blocks {
+				for _, in := range b.Instrs {
+					st, ok := in.(*ssa.Store)
+					if !ok {
+						continue
+					}
+					fa, ok := st.Addr.(*ssa.FieldAddr)
+					if !ok || fa.Field != field || !isNamed(derefT(fa.X.Type()), "wasp/sessions", "Session") {
+						continue
+					}
+					if prm, ok := core.Strip(st.Val).(*ssa.Parameter); ok && prm.Parent() == ns {
+						return paramIdx(prm)
+					}
+				}
+			}
+		}
+		return -1
+	}
+	for _, role := range []struct{ accessor, field string }{{"MountPoint", "MountPoint"}, {"ID", "ID"}} {
+		f := accessorField(role.accessor)
+		pi := -1
+		if f >= 0 {
+			pi = paramOf(f)
+		}
+		if !ru.Anchor(pi >= 0, "the NewSession parameter that becomes Session."+role.accessor+"()") {
+			continue
+		}
+		sites := c.P.StaticCallers(ns)
+		ru.Anchor(len(sites) > 0, "a call of sessions.NewSession")
+		for _, site := range sites {
+			c.R.Fn(c.fname(site.Parent()))
+			key := fmt.Sprintf("%s of the session created in %s", role.accessor, c.fname(site.Parent()))
+			args := site.Common().Args
+			ok := pi < len(args) && depReaches(args[pi], func(v ssa.Value) bool {
+				switch x := v.(type) {
+				case *ssa.Field:
+					return fieldNameOf(x.X.Type(), x.Field) == role.field && isNamed(derefT(x.X.Type()), "wasp/auth", "Principal")
+				case *ssa.FieldAddr:
+					return fieldNameOf(x.X.Type(), x.Field) == role.field && isNamed(derefT(x.X.Type()), "wasp/auth", "Principal")
+				}
+				return false
+			})
+			what := ""
+			if pi < len(args) {
+				what = short(core.Term(args[pi]), 60)
+			}
+			ru.Check(ok, key, c.whereI(site), "Principal."+role.field, "the argument that becomes the session's "+role.accessor+"() is "+what+", not the principal's "+role.field+" returned by authentication")
+		}
 	}
 }
